@@ -136,7 +136,7 @@ pub fn run_history(tr: &mut Trace, c: &Conc, r: &mut Rng, t: i32, tx: i32, hist:
         .collect();
     tr.run(json!({"ev": "reset", "kind": "complete", "t": t, "tx": tx, "hist": hist, "byPath": by_path, "prop": prop}));
     let (shp, shx, dbf) = (LogDest::new(), LogDest::new(), LogDest::new());
-    let path = tmp.join(format!("w{}.shp", id));
+    let path = crate::cmd_codec::path_variant(tmp, "w", id);
     enum W {
         Mem(Writer<LogDest>),
         File(Writer<std::io::BufWriter<std::fs::File>>),
@@ -236,11 +236,13 @@ pub fn run_history(tr: &mut Trace, c: &Conc, r: &mut Rng, t: i32, tx: i32, hist:
     tr.emit(json!({"ev": "cdrop", "shp": jbytes(&b1), "shx": jbytes(&b2), "dbf": jbytes(&b3), "readback": rb, "typed": typed}));
     if by_path {
         // which of the three files the path constructors require / pick up: every subset present
-        let keep: Vec<(&str, Vec<u8>)> = ["shp", "shx", "dbf"].iter().map(|e| (*e, std::fs::read(path.with_extension(e)).unwrap_or_default())).collect();
+        // (the .shp is the path as given: its extension may be upper case)
+        let ext_path = |e: &str| if e == "shp" { path.clone() } else { path.with_extension(e) };
+        let keep: Vec<(&str, Vec<u8>)> = ["shp", "shx", "dbf"].iter().map(|e| (*e, std::fs::read(ext_path(e)).unwrap_or_default())).collect();
         for mask in 0..8u32 {
             let mut present = vec![];
             for (bit, (ext, bytes)) in keep.iter().enumerate() {
-                let p = path.with_extension(ext);
+                let p = ext_path(ext);
                 if mask & (1 << bit) != 0 {
                     std::fs::write(&p, bytes).unwrap();
                     present.push(*ext);
